@@ -705,8 +705,11 @@ def replay(w):
                     if name.endswith(suf):
                         exp = val
                         break
-            if w.get('sf'):
-                return {'reproduced': True, 'detail': 'soundfile-type inference (soundfile is not installed here; symbolic witness only): %s' % w['what']}
+            if exp is None:
+                from pydrobert.speech import config as _cfg
+                last = name.rsplit('.', 1)[-1]
+                if last in set(_cfg.SOUNDFILE_SUPPORTED_FILE_TYPES):      # the installed soundfile's types (documented lowest priority)
+                    exp = last
             try:
                 got = util._infer_force_as_from_rfilename(name)
             except IOError:
